@@ -5,7 +5,6 @@ import (
 	"fmt"
 	"os"
 	"sort"
-	"strings"
 	"sync"
 	"testing"
 
@@ -16,18 +15,13 @@ import (
 
 // ---------------------------------------------------------------- known shapes
 
-var assumedKnown = func() map[string]bool {
-	out := map[string]bool{}
-	for _, k := range strings.Split(os.Getenv("C15_ASSUME_KNOWN"), ",") {
-		if k = strings.TrimSpace(k); k != "" {
-			out[k] = true
-		}
-	}
-	return out
-}()
-
+// knownFn: the known-shape exclusions are driven only by the registered known
+// findings (pbt.Stats.IsKnown, i.e. VERIF_KNOWN / known_findings.json). Once a
+// defect is fixed and no longer listed, its shape is generated again and the
+// check verifies the fix. (Collection rounds "behind" a finding use a scratch
+// VERIF_KNOWN file.)
 func knownFn(st *pbt.Stats) func(string) bool {
-	return func(k string) bool { return assumedKnown[k] || (st != nil && st.IsKnown(k)) }
+	return func(k string) bool { return st != nil && st.IsKnown(k) }
 }
 
 // repairConnProcs removes the shape of kFailReorder from a new raw config: a
